@@ -290,6 +290,7 @@ func (s *Module) ResetState(height uint32, cache *storage.MemCachedStore) error 
 		s.validatedHeight.Store(*validated)
 	} else {
 		cache.Delete([]byte{byte(storage.DataMPTAux), prefixValidated})
+		s.validatedHeight.Store(0)
 	}
 
 	s.currentLocal.Store(sr.Root)
